@@ -40,7 +40,11 @@ RULE = ('abstract baskets (1-6 sequences; lengths 0-200 biased to 0, 1, 59-61; n
         'undetectable texts) through StringIO / BytesIO / a file with a neutral extension; write-by-name stream: names with directories, '
         'several dots, hidden files, every extension of the plugin tables and near misses (str and pathlib.Path), os.path.splitext and '
         'detect_ext compared with the model, the file read back with content detection; relational stream: deleting comment / blank / '
-        'annotation lines from FASTA, GFF3+FASTA and Stockholm texts (up to 7 interleaved blocks) does not change what is read')
+        'annotation lines from FASTA, GFF3+FASTA and Stockholm texts (up to 7 interleaved blocks) does not change what is read; '
+        'SJSON byte stream: bytes written by sugar re-rendered with other JSON layouts (indent, separators, key order, leading / trailing '
+        'whitespace, escapes in ids) and damaged variants, read with detection and with fmt given, the model parses the same bytes; '
+        'mode "a" for all four formats; BioSeq construction stream: str / BioSeq source x id absent / None / "" / given x meta None / '
+        'without id / with id x type None / nt / aa / illegal')
 TRUSTED = ['CPython text layer (open/TextIOWrapper universal newlines, StringIO), str.strip/lstrip/rstrip/split/upper/removeprefix, '
            're.match on IDPATTERN (modelled by a hand-written matcher, pinned to the structural form of the pattern (CPython parse tree, normalised: tools/gens/c01.py canon_regex) and compared on adversarial '
            'headers), json.dump/json.load text layer (SJSON is modelled at tree level), dict insertion order, the OS appending '
@@ -733,6 +737,82 @@ def detect_cases(rng, tier):
         cases.append({'op': 'byname', 'fmt': 'fasta', 'name': nm, 'seqs': seqs, 'via': rng.choice(['str', 'str', 'pathlib'])})
     return cases
 
+# ----------------------------------------------------------------------------- BioSeq construction stream (seq.py:213-243)
+def init_cases(rng, tier):
+    cases = []
+    ids = [None, '', 'x', 'id 2', '0', ' ']
+    metas = [None, {}, {'id': 'm'}, {'id': ''}, {'id': None}, {'other': 'v'}, {'id': 'm', 'other': 'v'}]
+    types = [None, None, 'nt', 'aa', 'NT', 'protein', '']
+    datas = ['ACGT', 'acgu', 'ACGU', 'mkv*', 'ACGTX', '', 'N-.', 'acgtryswkmbdhvn', 'ACGTE', 'u', 'Meta', 'meta', 'ac gt', 'ACGT1', 'ACGT*']
+    n = 1500 if tier == 'thorough' else 220
+    for _ in range(n):
+        c = {'op': 'init', 'fmt': 'fasta', 'from': rng.choice(['str', 'str', 'seq']),
+             'data': rng.choice(datas) if rng.random() < 0.7 else g_res(rng, 30), 'meta': rng.choice(metas), 'type': rng.choice(types)}
+        if rng.random() < 0.75:
+            c['id'] = rng.choice(ids)
+        if c['from'] == 'seq':
+            c['sid'] = rng.choice(['src', '', None])
+            c['stype'] = rng.choice([None, None, 'aa', 'nt'])
+            c['shdr'] = rng.choice([None, None, 'src some header'])
+        cases.append(c)
+    return cases
+
+
+def impl_init(case):
+    from sugar import BioSeq
+    if case['from'] == 'seq':
+        kw0 = {} if case.get('stype') is None else {'type': case['stype']}
+        src = BioSeq(case['data'], id=case.get('sid'), **kw0)
+        if case.get('shdr') is not None:
+            src.meta._fasta = {'header': case['shdr']}
+    else:
+        src = case['data']
+    kw = {}
+    if 'id' in case:
+        kw['id'] = case['id']
+    if case.get('meta') is not None:
+        kw['meta'] = dict(case['meta'])
+    if case.get('type') is not None:
+        kw['type'] = case['type']
+    import warnings
+    with warnings.catch_warnings():
+        warnings.simplefilter('ignore')
+        s = BioSeq(src, **kw)
+    return objs([s])[0]
+
+
+def _init_term(case):
+    def o(x):
+        return coq_opt(x, coq_bs)
+    m = case.get('meta')
+    if m is None:
+        meta = 'None'
+    elif 'id' not in m:
+        meta = '(Some None)'
+    else:
+        meta = '(Some (Some %s))' % o(m['id'])
+    return 'out (run_C01_init %s %s %s %s %s %s %s %s)' % (
+        'true' if case['from'] == 'seq' else 'false', coq_bs(case['data']), o(case.get('sid')), o(case.get('stype')), o(case.get('shdr')),
+        o(case['id']) if 'id' in case else '(Some [])', meta, o(case.get('type')))
+
+
+def spec_init(case, got):
+    """first principles: data upper-cased; type given or 'nt' iff all upper-cased letters are IUPAC nucleotide codes / gaps"""
+    ty = case.get('type')
+    if ty not in (None, 'nt', 'aa'):
+        return None if got == {'e': 'AssertionError'} else 'type=%r accepted: %r' % (ty, got)
+    if isinstance(got, dict):
+        return 'raised %s inside the claimed domain' % got.get('e')
+    if got[1] != case['data'].upper():
+        return 'data %r, expected %r' % (got[1], case['data'].upper())
+    want_t = ty or ('nt' if set(case['data'].upper()) <= set('ACGTURYSWKMBDHVN.-') else 'aa')
+    if got[2] != want_t:
+        return 'type %r, expected %r' % (got[2], want_t)
+    idarg = case.get('id', '')
+    if idarg and got[0] != idarg:
+        return 'id %r, the argument was %r' % (got[0], idarg)
+    return None
+
 
 def detectable(fmt, text):
     """texts for which read() without fmt is expected to find the format: the sniffers look at the first 50 / 11 / 100
@@ -768,6 +848,7 @@ def gen_cases(rng, tier):
     cases += sniffer_cases(rng, tier)
     cases += archive_cases(rng, tier)
     cases += detect_cases(rng, tier)
+    cases += init_cases(rng, tier)
     for _ in range(n_cycle):
         fmt = rng.choice(FMTS)
         c = {'op': 'cycle', 'fmt': fmt, 'seqs': g_seqs(rng, fmt=fmt), 'via': rng.choice(vias)}
@@ -775,8 +856,8 @@ def gen_cases(rng, tier):
             c['fts'] = g_fts(rng, c['seqs'])
         cases.append(c)
     for _ in range(n_app):
-        fmt = 'fasta' if rng.random() < 0.8 else rng.choice(FMTS)
-        cases.append({'op': 'append', 'fmt': fmt, 'seqs': g_seqs(rng, lo=0, hi=3), 'seqs2': g_seqs(rng, lo=0, hi=3)})
+        fmt = 'fasta' if rng.random() < 0.6 else rng.choice(FMTS)
+        cases.append({'op': 'append', 'fmt': fmt, 'seqs': g_seqs(rng, lo=0, hi=3, fmt=fmt), 'seqs2': g_seqs(rng, lo=0, hi=3, fmt=fmt)})
     for _ in range(n_read):
         r = rng.random()
         if r < 0.6:
@@ -1066,6 +1147,8 @@ def impl_byname(case, d):
 
 def impl(case):
     op, fmt = case['op'], case['fmt']
+    if op == 'init':
+        return impl_init(case)
     via = case.get('via', 'str')
     with _Tmp() as d:
         if op == 'history':
@@ -1141,6 +1224,8 @@ def _opt_term(case):
 
 
 def model_term(case):
+    if case['op'] == 'init':
+        return _init_term(case)
     if case['op'] == 'detect':
         ftl = coq_list([coq_pair(coq_bs(i), coq_bs(t), coq_nat(a), coq_nat(e), '"%s"%%byte' % st) for i, t, a, e, st in case.get('fts', [])])
         return 'out (run_C01_det %s %s %s %s %s)' % (coq_N(2 if case.get('given') else 1 if 'text' in case else 0), coq_N(FMTS.index(case['fmt'])),
@@ -1202,6 +1287,9 @@ def valid_case(case):
         if not (isinstance(case.get('seqs'), list) and all(len(x) == 3 and x[1] is not None for x in case['seqs'])):
             return False
         return all(len(ft) == 5 and len(ft[4]) == 1 and ft[2] < ft[3] and ft[4] in '+-.?' for ft in case.get('fts', []))
+    if case.get('op') == 'init':
+        return (case.get('from') in ('str', 'seq') and isinstance(case.get('data'), str)
+                and (case.get('meta') is None or isinstance(case['meta'], dict)))
     if case.get('op') == 'byname':
         return (name_safe(case.get('name')) and isinstance(case.get('seqs'), list)
                 and all(len(x) == 3 and x[1] is not None for x in case['seqs']))
@@ -1386,6 +1474,8 @@ def spec(case, got):
         return spec_history(case, got)
     if case['op'] == 'detect':
         return spec_detect(case, got)
+    if case['op'] == 'init':
+        return spec_init(case, got)
     if case['op'] == 'byname':
         return spec_byname(case, got)
     if case['op'] == 'archive':
@@ -1420,6 +1510,15 @@ def spec(case, got):
             return 'objects of the first and second read differ'
         if t2 != t3:
             return 'second and third written text differ'
+        return None
+    if op == 'append' and fmt != 'fasta':
+        # write()'s documentation: mode 'a' works only with compatible formats (FASTA). What the property still says:
+        # nothing is raised by the writer, and a Stockholm file keeps reading as its first alignment
+        ta, tc, oa = got
+        if fmt == 'stockholm':
+            want = [[i, d.upper()] for i, d, h in case['seqs']]
+            if isinstance(oa, dict) or [x[:2] for x in oa] != want:
+                return 'appended Stockholm file reads back as %r, the first alignment is %r' % (oa, want)
         return None
     if op == 'append':
         ta, tc, oa = got
@@ -1459,6 +1558,9 @@ def _marks(case, got):
     ms = []
     if op == 'archive':
         return ['archive-%s' % case['archive'], 'fmt-given' if case.get('fmt_given') else 'fmt-detected']
+    if op == 'init':
+        return ['init-' + case['from'], 'id-' + ('absent' if 'id' not in case else 'falsy' if not case['id'] else 'given'),
+                'meta-' + ('none' if case.get('meta') is None else 'id' if 'id' in case['meta'] else 'noid'), 'type-%s' % case.get('type')]
     if op == 'detect':
         if case.get('given'):
             return ['sjson-bytes-given', case.get('via', '')]
@@ -1552,7 +1654,7 @@ def nontrivial(case, got):
 
 def histkey(case, got):
     ks = ['op=' + case['op'], 'fmt=' + case['fmt'], 'raised' if isinstance(got, dict) else 'returned']
-    if case['op'] in ('gffopt', 'archive', 'detect', 'byname'):
+    if case['op'] in ('gffopt', 'archive', 'detect', 'byname', 'init'):
         pass
     elif case['op'] == 'history':
         ks.append('steps=%d' % len(case['steps']))
@@ -1760,9 +1862,20 @@ LEVEL_TEXT = ('Machine-checked Coq theorems about an executable model of the rea
               'names without suffix and hidden files have none (C01_basename_dir, C01_detect_ext_last_suffix, C01_ext_of_no_suffix, '
               'C01_ext_of_hidden, C01_ext_table_ok) and writing by name round-trips (C01_byname_roundtrip); interleaved Stockholm '
               'blocks are read as per-id concatenations, for two blocks and for any number of blocks (C01_stk_interleave, '
-              'C01_stk_interleave_n). The model is tied to sugar by differential testing '
+              'C01_stk_interleave_n); at byte level: a parser for the subset of JSON sugar writes inverts the json.dump printer on '
+              'every tree and with any trailing whitespace, so reading the characters of a written file is reading its content and '
+              'the round trip holds on bytes for all four formats (C01_jparse_jdump, C01_jload_jdump, C01_read_bytes_written, '
+              'C01_bytes_roundtrip); mode "a": which plugin function write() calls for each format, the appended file is old + new '
+              'characters, and a Stockholm file appended to reads back as its first alignment only, i.e. "append = concatenation" is '
+              'a FASTA fact as documented (C01_append_dispatch, C01_append_file, C01_stk_append_reads_first); BioSeq(data, id, meta, '
+              'type): data upper-cased, type given or inferred from the upper-cased letters, AssertionError for other types, id '
+              'precedence argument > source object / meta mapping > default, copy of a constructed sequence is itself, an explicit '
+              'type is not copied (C01_bioseq_init_plain, C01_bioseq_init_data_type, C01_bioseq_init_id, C01_bioseq_init_copy, '
+              'C01_bioseq_init_copy_reinfers, C01_bioseq_init_hook). The model is tied to sugar by differential testing '
               'through the public entry points on every run.')
-LEVEL_NOTE = ('Trusted: Coq kernel/vm_compute, translator (G_codes, G_c01_io), correspondence harness, CPython text layer, re, json.load, '
+LEVEL_NOTE = ('Trusted: Coq kernel/vm_compute, translator (G_codes, G_c01_io), correspondence harness, CPython text layer, re, '
+              'json (modelled: dump of str/None/list/dict trees with default options, load of that subset; numbers, booleans, '
+              'non-Latin-1 escapes are outside the model), '
               'os.path.splitext (modelled by hand for POSIX names and compared on generated names). '
               'Modelled rather than verified: BioSeq.__init__, fasta.py, stockholm.py sequence lines, sjson.py at tree level plus '
               "json.dump's rendering of these trees (compared byte for byte with tofmtstr('sjson')), "
@@ -1774,7 +1887,7 @@ LEVEL_NOTE = ('Trusted: Coq kernel/vm_compute, translator (G_codes, G_c01_io), c
               'GFF features: single location, seqid not ".", distinct sequence ids; detection theorems need a non-empty basket (an '
               'empty FASTA file is undetectable). '
               'Tested only (not proved): transports (path, pathlib.Path, handle, StringIO, BytesIO, extension and content detection), '
-              'parsing SJSON bytes (json.load), SJSON/GFF feature content (C14/C02), the OS appending bytes in mode "a", archives. '
+              'SJSON/GFF feature content (C14/C02), the OS appending bytes in mode "a", archives, BioSeq(mapping with a "meta" key). '
               'Statement coverage of the modelled functions in the quick tier is complete except: def lines (executed at import, '
               'before measurement), main.py:314-316,403-404 (tool="biopython", Bio not installed), main.py:326 (no sequence plugin '
               'lacks both read_ and iter_), sjson.py:28,30 (Strand/Defect are str/int subclasses and are serialised natively, '
